@@ -144,8 +144,11 @@ PROPS.update({
         "verified certificates on every automaton of every enumerated heuristic answer sequence + pairwise multiset comparison", ["c04", "pg04", "tab03", "pgm"]),
     "C06": aut_prop("translation_validation",
         "Theorem c06_pattern_independent_acceptance (certified automata for pattern lists sharing a constraint list accept it identically); each "
-        "pattern compiled alone vs inside the set, a rotated set with renumbering, duplicates, n_patterns/get_pattern.",
-        "verified certificates + alone-vs-together / permutation differential", ["c06", "tab06"]),
+        "pattern compiled alone vs inside the set, a rotated set with renumbering, duplicates; strings / matrices at run level: c06_{string,matrix}_runs_agree. "
+        "Identifiers and fallback modes: Model/ManyGlue.v models ManyMatcher::try_from_patterns_with_det_heuristic around the builder and the pattern table; "
+        "c06_skip_ids_are_input_positions, c06_fail_returns_first_error, c06_get_pattern_reflects_compiled, c06_n_patterns_counts_compiled; compared with the "
+        "implementation on every table-domain pattern list with unconvertible patterns (glue cases: ids, n_patterns, get_pattern of every position, Ok/Err under Fail).",
+        "verified certificates + alone-vs-together / permutation differential + Coq model of the identifier / fallback glue", ["c06", "tab06"]),
     "C07": aut_prop("translation_validation",
         "Strings: Theorems c07_string_at_most_once / c07_string_exactly_once - on every automaton that passes wf_check and the unambiguity "
         "certificates (slab_ok: a signed labelling with alternatives, checked edge by edge; cert_unamb: two accepting entries of one pattern sit in "
